@@ -57,6 +57,10 @@ type Scenario struct {
 	Honest    bool       `json:"honest"` // an honest full source stays reachable: completion is expected (C10)
 	Seed      int64      `json:"seed"`
 	Endgame   int        `json:"endgame"`
+	// BadHashPiece >= 0: the recorded SHA-1 of that piece is altered at byte BadHashPos; honest data must be refused for it
+	BadHashPiece int `json:"badHashPiece"`
+	BadHashPos   int `json:"badHashPos"`
+	BadHash      bool `json:"badHash"`
 }
 
 var (
@@ -332,6 +336,9 @@ func run(sc Scenario, dir string) {
 	}
 	r.ws = wss
 	r.tor = vh.Build(lay, sc.Seed, nil, wsurls)
+	if sc.BadHash {
+		r.tor = vh.BreakHash(lay, sc.Seed, nil, wsurls, sc.BadHashPiece, sc.BadHashPos)
+	}
 	for _, s := range wss {
 		s.Tor = r.tor
 	}
